@@ -92,9 +92,12 @@ def run(run: common.Run):
         outs = {}
         try:
             for tag, (fs, fr) in dict(base=(1.0, 1.0), srcx=(a, 1.0), refx=(1.0, c)).items():
+                # every fourth case stores the rescaled copies as float64 while the originals are float32 (what numpy makes of
+                # `uint8 * 0.5`): the law is about the values, not about the data type of the file they are stored in
+                wide = case['src_nodata'] == -9999.9 or (i % 4 == 2 and tag != 'base')
                 pair = fusion.write_pair(tmp, f'c07_{tag}', src, ref, s * fs, r * fr, sv, rv,
                                          src_nodata=case['src_nodata'], ref_nodata=case['ref_nodata'],
-                                         dtype='float64' if case['src_nodata'] == -9999.9 else 'float32')
+                                         dtype='float64' if wide else 'float32')
                 outs[tag], case['halvings'] = fusion.run_fuse_blocks(
                     case['halvings'], src, ref, proc_ref_guess, pair.src_path, pair.ref_path, tmp / f'c07_{tag}_out.tif',
                     model=case['model'], kernel_shape=case['kernel'], proc_crs=case['proc'], param=True,
@@ -112,6 +115,7 @@ def run(run: common.Run):
         run.hist['power-of-two factors' if case['pow2'] else 'general factors'] += 1
         run.hist[f"proc={outs['base'].proc_crs}"] += 1
         run.hist['blocks>1' if case['halvings'] else 'blocks=1'] += 1
+        run.hist['rescaled copies stored as float64, originals as float32'] += int(i % 4 == 2 and case['src_nodata'] != -9999.9)
         if a != 1 or c != 1:
             run.nontrivial.add((str(case['src']), case['model'], tuple(case['kernel']), a, c, case['halvings']))
         b, sx, rx = outs['base'], outs['srcx'], outs['refx']
